@@ -561,6 +561,14 @@ func (pa *path) doDescribe(req defs.PathDescribeReq) {
 func (pa *path) doRemovePublisher(req defs.PathRemovePublisherReq) {
 	if pa.source == req.Author {
 		pa.executeRemovePublisher()
+
+		// the stream is gone and readers have been removed without scheduling
+		// the closure of the on-demand command, that would otherwise run forever,
+		// while new requests would wait for a publisher without any timeout.
+		// stop the command, it will be restarted by the next request.
+		if pa.conf.HasOnDemandPublisher() && pa.onDemandPublisherState != pathOnDemandStateInitial {
+			pa.onDemandPublisherStop("publisher has left")
+		}
 	}
 	close(req.Res)
 }
